@@ -10,6 +10,8 @@ from harness import lib
 from harness import refeval as RE
 from harness import refad as RA
 
+from harness.sanitize import sanitize as safe      # every check passes its model through this first (DESIGN.md 5.3)
+
 TOL = 8.0
 TINY = 1e-300
 ILL = 1e-6
